@@ -149,7 +149,8 @@ def set_owner_process(uid, gid, initgroups=False):
 
         if initgroups:
             os.initgroups(username, gid)
-        elif gid != os.getgid():
+        # initgroups() only sets the supplementary groups
+        if gid != os.getgid():
             os.setgid(gid)
 
     if uid and uid != os.getuid():
